@@ -34,6 +34,42 @@ CLAIMS = {
         "Field identity derived from state keys, role calls and names; user callables deterministic; object-dtype blobs share user objects by design.",
         "DESIGN.md section 3 (C07)",
     ),
+    "C06": (
+        "index-safety rule (linear bound of an incremented subscript against the array length in the loop guard), allocation/slot-assignment shape, single-draw census, call-shape check of the categorical draw",
+        "Static decision of the structural preconditions of the resampling contract on all paths: bounded incremented index, exactly `size` unconditional slot assignments from a monotone index, one scalar shared offset in (U + arange(n))/n, multinomial draw over the whole weight vector with p = weights.",
+        "numpy.random.choice semantics trusted; expectation n*w_i and the floor/ceil law are numerical and not decided.",
+        "DESIGN.md section 3 (C06)",
+    ),
+    "C11": (
+        "backward slice of the value written to `logz` in the prior-draw branch (must-not-depend on current logz, must-depend on the -inf mask); CFG must-pass-through of the joint replacement on every path with a non-empty -inf mask",
+        "Static decision over all paths that the warm-up evidence is the batch's own supported fraction (not an accumulation) and that -inf rows are replaced before the batch is stored; the all--inf batch path is a listed known finding (K3).",
+        "Assumes the reweighting step has set logz from history before mutation (pipeline order, C05); convergence of the final evidence not decided.",
+        "DESIGN.md section 3 (C11)",
+    ),
+    "C12": (
+        "CFG single-exit analysis of the sampling loop, truth table over the atoms of the termination predicate (postcondition = negated guard), def-use chain of the final evidence, index-history analysis of posterior() return tuples",
+        "Static decision that run() can return only when 1-beta < 1e-4 and ESS(beta=1 weights over the whole history) >= n_total, that evidence() returns the MIS evidence at beta=1 computed after the last iteration, and that all arrays returned by posterior() carry the same trimming/resampling index history with re-derived (uniform after resampling) weights.",
+        "Termination of the loop and numerical ESS are not decided; weight function and ESS routine are decided under C04/C20.",
+        "DESIGN.md section 3 (C12)",
+    ),
+    "C13": (
+        "whitelist rule on dispatch callables, contradiction rule via a truth table over branch atoms (isinstance(pool,int) must be known false at attribute access), CFG path enumeration pairing each likelihood call with one counter increment of the batch row count",
+        "Static decision over all paths: results are assembled only through order-preserving map; no attribute access on an int pool; each wrapper call site increments the counter exactly once by the number of rows evaluated; the kernel total is added to `calls` exactly once; each wrapper path evaluates the user function through exactly one dispatch.",
+        "Assumes Pool.map preserves order and the user likelihood is pointwise identical across modes; bit-identity not decided.",
+        "DESIGN.md section 3 (C13)",
+    ),
+    "C14": (
+        "typestate analysis of the shared clusterer across the pipeline (fit/predict automaton, guards decided by truth table over path atoms, interprocedural precondition through the wiring), index-space typing of mode arrays, sibling-factory sequence agreement, linear cap-wiring check",
+        "Static decision that every predict runs in the FITTED state for every cadence and after resume; that mode statistics are only created through the Cholesky-validating constructor by two factories with the same normalise/resample/fit/dof-fallback sequence; that per-cluster fits use rows and weights of that cluster; that max_iterations + 1 <= cap. The rank-vs-raw label-space mismatch is a listed known finding (K2).",
+        "np.linalg.cholesky raises unless SPD; finiteness/positivity of fitted parameters not decided.",
+        "DESIGN.md section 3 (C14)",
+    ),
+    "C16": (
+        "abstract interpretation of the fold formulas over the finite domain parity(floor) x {r=0, 0<r<1}; bounded-before-narrowing lint on the input's data path; selection-structure rules for copy, designated-index stores and the two-sided bounds predicate",
+        "Static decision for every real in exact arithmetic that the periodic branch computes val mod 1 and the reflective branch the period-2 triangle wave; that no unbounded float->int conversion lies on the data path; that only designated coordinates of a copy are written; that the bounds predicate tests (x>=0)&(x<=1) on exactly the non-designated coordinates for both ranks.",
+        "Floating-point rounding within one ulp of integers is not decided; numpy floor/mod/where semantics as tabulated.",
+        "DESIGN.md section 3 (C16)",
+    ),
 }
 
 NOT_APPLICABLE = {
